@@ -78,6 +78,9 @@ func (g *gen) validV1() map[string]any {
 	}
 	// kubernetes bindings first: the other bindings refer to their names
 	nk := []int{0, 1, 1, 2, 2, 3}[g.r.Intn(6)]
+	if g.opt(6) {
+		nk = 8 + g.r.Intn(8) // hooks with many kubernetes bindings (8-15)
+	}
 	var kubes []any
 	count := map[string]int{}
 	var effNames []string
